@@ -72,6 +72,7 @@ def run(ck):
     for rec in recs:
         replay(ck, em, rec, rng)
     many_blocks(ck, em, rng, 10 if quick else 80)
+    big_blocks(ck, em, rng, 14 if quick else 70)
 
 
 def flat_choices(order):
@@ -341,3 +342,55 @@ def many_blocks(ck, em, rng, count):
             bad("array", "Raised", "%d row blocks: %s: %s" % (B, type(e).__name__, e))
             continue
         ck.sample({"mechanism": "M3", "scenario": {k: scn[k] for k in ("rows", "features", "row_blocks", "seed")}, "verdict": "ok"}, limit=4)
+
+
+def big_blocks(ck, em, rng, count):
+    """SameModel on arrays large enough for block-size dependent code paths (round eight: a matrix-product form of the
+    distances on blocks of 256 rows or more): 600 ... 2100 rows in blocks of 48 ... 1000 rows, so that the in-memory
+    array and the blocks fall on different sides of any such threshold, with the features far from the origin
+    (offsets up to 1e7 at unit spread, where algebraically equal forms of a distance differ numerically).  k-means
+    only: its distances are differences of nearby numbers, which the unchanged code computes stably at these offsets
+    (C20, D12); centroids are compared after subtracting the offset."""
+    import dask
+    import dask.array as da
+    for i in range(count):
+        seed = rng.randrange(10 ** 6)
+        r = np.random.RandomState(seed)
+        n = [600, 1100, 2048, 2100][i % 4]
+        chunks = [(128,), (100,), (300,), (1000,), (1000, 1000, 48), (256,), (255,)][i % 7]
+        if len(chunks) > 1 and sum(chunks) != n:
+            chunks = (n // 2, n - n // 2 - 48, 48)
+        off = [1e7, 1e4, 0.0, 1e7, 3e6][i % 5]
+        D, C = 2, 3
+        centres = r.normal(size=(C, D)) * 1.5
+        X = centres[r.randint(0, C, size=n)] + r.normal(size=(n, D)) + off
+        init = X[[0, 1, 2]].copy()
+        Xd = da.from_array(X, chunks=(chunks if len(chunks) > 1 else chunks[0], D))
+        scn = {"rows": n, "row_chunks": list(chunks), "offset": off, "seed": seed}
+        ck.replayed += 1
+        ck.seen(["big-blocks", seed, n, chunks, off])
+        try:
+            with dask.config.set(scheduler="synchronous"):
+                for cap, thr in ((4, None), (40, 1e-4)):
+                    ref = em.KMeansMachine(C, init_method=init.copy(), max_iter=cap, convergence_threshold=thr).fit(X)
+                    got = em.KMeansMachine(C, init_method=init.copy(), max_iter=cap, convergence_threshold=thr).fit(Xd)
+                    a, b = np.asarray(got.centroids_, dtype=float) - off, np.asarray(ref.centroids_, dtype=float) - off
+                    ca, cb = float(got.average_min_distance), float(ref.average_min_distance)
+                    if not (a.shape == b.shape and np.allclose(a, b, rtol=0, atol=1e-6) and abs(ca - cb) <= 1e-7 * max(1.0, abs(cb))):
+                        ck.violation("M3:ArrayTrain:kmeans:SameModel",
+                                     {"mechanism": "M3", "module": "ArrayTrain", "trainer": "kmeans", "scenario": dict(scn, cap=cap, thr=thr),
+                                      "detail": "centroids - offset %s / criterion %r on the Dask array, %s / %r in memory"
+                                                % (a.tolist(), ca, b.tolist(), cb)})
+                        break
+                    da_, db_ = np.asarray(got.transform(Xd)), np.asarray(ref.transform(X))
+                    if not np.allclose(da_, db_, rtol=1e-7, atol=1e-7):
+                        ck.violation("M3:ArrayTrain:kmeans:SameDistances",
+                                     {"mechanism": "M3", "module": "ArrayTrain", "trainer": "kmeans", "scenario": dict(scn, cap=cap, thr=thr),
+                                      "detail": "squared distances of the Dask array differ from the in-memory ones by up to %g"
+                                                % float(np.abs(da_ - db_).max())})
+                        break
+        except Exception as e:      # noqa: BLE001
+            ck.violation("M3:ArrayTrain:array:Raised", {"mechanism": "M3", "module": "ArrayTrain", "scenario": scn,
+                                                        "detail": "%s: %s" % (type(e).__name__, e)})
+            continue
+        ck.sample({"mechanism": "M3", "scenario": scn, "verdict": "ok"}, limit=6)
